@@ -253,7 +253,11 @@ def configs(tier):
             for ret in (NORET, 1, 2):
                 if tier == "quick" and ((mq + auto + ret) % 2 == 0 or (mq == 4 and auto > 4)):
                     continue
-                out.append({"maxq": mq, "auto": auto, "ret": ret, "types": TYPES})
+                ty = TYPES
+                if tier == "quick":        # five of the seven waste kinds per configuration, rotating (the sensitive kind always present)
+                    drop = [("err", "dup"), ("exp", "txr"), ("bad", "err"), ("mis", "exp"), ("dup", "bad")][len(out) % 5]
+                    ty = [t for t in TYPES if t not in drop]
+                out.append({"maxq": mq, "auto": auto, "ret": ret, "types": ty})
     return out
 
 
